@@ -1,3 +1,6 @@
 import FteikVerif.Model.Scalar
 import FteikVerif.Model.Py
 import FteikVerif.Model.Fteik2D
+import FteikVerif.Model.Fteik3D
+import FteikVerif.Model.Interp
+import FteikVerif.Model.Ray
